@@ -20,7 +20,7 @@ func Specs() map[string]*Spec {
 			"kind_expr-seq", "kind_truncate-tag", "kind_splice", "sched_lockstep", "sched_random-q1", "sched_random-q7", "sched_rr-q1", "chan_ops", "switches"},
 		Rule: "every byte-prefix of every corpus item (testdata/*.soy and every string literal of the repository's *_test.go files; raw, wrapped in a template, and as a standalone expression) " +
 			"is enumerated exhaustively; then seeded units of 100 inputs each (token deletions/duplications/swaps/splices of corpus items, sequences of up to N tags from the tag dictionary at file/template/nested level, " +
-			"expression atom sequences, inputs pumped to 16-64KB, random bytes). Each input is parsed as the main task of a two-task simulation (scanner goroutine + parser) under one of four seeded schedules; " +
+			"structurally plausible skeleton files whose namespaces, aliases and callee names come from a pool of eight overlapping dotted names, expression atom sequences, inputs pumped to 16-64KB, random bytes). Each input is parsed as the main task of a two-task simulation (scanner goroutine + parser) under one of four seeded schedules; " +
 			"oracle: the call returns (no panic in either task), no deadlock, at most StepsPerByte*(len+64) simulated steps. An input counts as distinct and non-trivial by the hash of (entry point, input bytes); every input exchanges at least one token with the scanner task.",
 		Assumptions: []string{
 			"simulated time counts soy function entries, loop iterations and statements; time spent inside the standard library counts as one step per call",
@@ -91,7 +91,8 @@ func init() {
 			QuickWall: 3 * time.Minute, ThoroughWall: 20 * time.Minute, BlockWall: 15 * time.Minute,
 			Nontrivial: "case",
 			Rule: "seeded generated bundles (1-4 files x 1-5 templates, all commands, directive chains, calls with data=all/data=$m/content params, msg with placeholders, html tags and plurals, globals, $ij, autoescape modes), " +
-				"each rendered per entry template and data set through a recording writer (without a message bundle, with a stub bundle, or with the repository's own PO-file bundle loaded from a generated catalogue); then, exhaustively per case, one run for every write call index k of the fault-free run in four modes (sticky: calls >= k fail; transient: only call k fails; " +
+				"each rendered per entry template and data set through a recording writer (without a message bundle, with a stub bundle, or with the repository's own PO-file bundle loaded from a generated catalogue). Swarm per case: the entry point (Renderer.Execute with $ij and catalogue, or Tofu.Render) and the optional interfaces the writer offers besides Write " +
+				"(none; Flush() error returning nil; Flush() error reporting the earlier failure; io.StringWriter). Then, exhaustively per case, one run for every write call index k of the fault-free run in four modes (sticky: calls >= k fail; transient: only call k fails; " +
 				"partial: call k accepts half its bytes and fails; fullcount: call k accepts all its bytes and still returns an error) and one run for every byte capacity b in 0..|output| (all b when |output| <= 1024, else all call boundaries +-1 and a seeded sample). " +
 				"Oracle: a failed write implies a non-nil error; bytes accepted up to the first failure are a prefix of the fault-free output; nil implies the whole output was accepted. " +
 				"A case is distinct by (bundle skeleton, entry template, data set, catalogue) and non-trivial if its fault-free run offers at least two fault points (two write calls, or two bytes of output for the capacity enumeration).",
@@ -99,7 +100,7 @@ func init() {
 				"the fault-free run of the same compiled bundle is the reference output (rendering is deterministic for the generated subset: no randomInt, no keys())",
 				"runs the plain, un-instrumented build: the writer seam is part of soy's API and needs no scheduler",
 			},
-			Components: map[string][]string{"real": {"all of robfig/soy, unmodified build of the current working tree"}, "stub": {"io.Writer (fault-injecting, recording)", "soymsg.Bundle (identity / reversed / partial catalogue built from the compiled messages)"}, "replaced": {}},
+			Components: map[string][]string{"real": {"all of robfig/soy, unmodified build of the current working tree"}, "stub": {"io.Writer (fault-injecting, recording; optionally with Flush or WriteString)", "soymsg.Bundle (identity / reversed / partial catalogue built from the compiled messages; or the real pomsg bundle over generated PO text)"}, "replaced": {}},
 			RequireProbes: []string{"fault_landed_on_entity", "fault_landed_on_escaper-chunk", "fault_landed_on_rawtext", "fault_landed_on_value", "fault_fired_sticky", "fault_fired_transient", "fault_fired_partial", "fault_fired_fullcount", "fault_fired_capacity", "fault_fired_with_pomsg_bundle",
 				"fault_fired_with_catalogue", "api_execute", "api_render", "writer_shape_plain", "writer_shape_flush-nil", "writer_shape_flush-err", "writer_shape_stringwriter", "bundle_has_css", "bundle_has_msg", "bundle_has_literal", "bundle_has_sp", "bundle_has_letc", "bundle_has_log", "bundle_has_param-content", "bundle_has_call"},
 		}
@@ -256,10 +257,11 @@ func init() {
 			ID: "C13", Level: "exploration", Main: "inst", Variants: []string{"inst", "plain"}, Block: 2,
 			QuickWall: 4 * time.Minute, ThoroughWall: 20 * time.Minute, BlockWall: 15 * time.Minute,
 			Nontrivial: "order_assignment",
-			Rule: "for each seeded generated bundle (emphasis: ES6 imports of many templates/functions/directives, map literals in printed, error-producing and placeholder positions, colliding placeholder names, a quarter of the cases with a call that omits a required param so that the compile error prints the call) " +
-				"the observation vector of one compilation is: accept/reject and error text; id, placeholder names and placeholder string of every msg; rendered output of up to 4 entries; soyjs.Write bytes per file x {ES5, ES6} x {no catalogue, catalogue}. " +
+			Rule: "for each seeded generated bundle (emphasis: ES6 imports of many templates/functions/directives, map literals in printed, error-producing and placeholder positions, colliding placeholder names, a quarter of the cases with a call that omits a required param so that the compile error prints the call, others with several undefined globals, unused or undeclared params; in an eighth of the cases exactly one error - a call to a missing template under a short name that other namespaces use - " +
+				"is injected into a bundle the compiler otherwise accepts; short template names recur across namespaces; in half of the cases the globals reach the bundle through AddGlobalsFile) " +
+				"the observation vector of one compilation is: accept/reject and error text; whether a second Compile of the same Bundle decides and says the same; id, placeholder names and placeholder string of every msg; rendered output of up to 4 entries; soyjs.Write bytes per file x {ES5, ES6} x {no catalogue, catalogue}. " +
 				"Reference: every `range` over a map (and reflect MapKeys) held at its canonical order through the map-order seam. Then: 6 seeded runs with independent order decisions per range execution (perturbation probability 1, 0.3, 0.05), two runs per reached range site perturbing that site alone " +
-				"(rotation 1 and n-1), and every permutation of file insertion order (up to 8). Orders for single-bucket maps of <= 8 keys are rotations of the slot order (what the Go runtime produces), seeded permutations otherwise. Oracle: equal vectors (for other file orders: rejected stays rejected, text may differ). " +
+				"(rotation 1 and n-1), and every permutation of file insertion order (up to 8). Orders for single-bucket maps of <= 8 keys are rotations of the slot order (what the Go runtime produces), seeded permutations otherwise. Oracle: equal vectors (for other file orders: rejected stays rejected and the text may differ, except that a bundle with exactly one injected error must report the same text under every order). " +
 				"Finally the plain build observes the same cases in fresh OS processes under native order; its vectors must equal the reference. A run is distinct by its (site, execution, decision) assignment combined with the bundle skeleton, non-trivial if at least one decision is non-canonical.",
 			Assumptions: []string{
 				"the only sources of nondeterminism between equal sources and equal results are map iteration order and file insertion order (no clock, no randomness: randomInt is excluded); the native cross-check exists to catch an order source the seam does not model",
